@@ -1,10 +1,13 @@
 (* Props/C15.v — property C15: the global reconstruction cost matches its definition and is cache-transparent.
-   Only statements, each closed by `exact`, with its assumptions printed. *)
-From Coq Require Import ZArith List Arith Bool.
-From Knee Require Import Num NumFloat NpList Model.GlobalCost Proofs.GlobalCostFacts.
+   Only statements, each closed by `exact`, with its assumptions printed.
+   Oracles (universally quantified): segerr l r = the partial cost of the end-point fit of points[l:r+1],
+   tss = the total sum of squares, sqerr l r = the residual sum of squares of that fit. *)
+From Coq Require Import Reals ZArith List Arith Bool PrimFloat.
+From Knee Require Import Num NumFloat NumR NpList Model.GlobalCost Proofs.ListFacts Proofs.NpSumR
+  Proofs.GlobalCostFacts Proofs.GlobalCostReal.
 Import ListNotations.
 
-(* Tier S (every Num, every oracle valuation segerr / tss, every breakpoint list, every metric):
+(* ---- cache_inv.  Tier S (every Num, every oracle valuation, every breakpoint list, every metric):
    a dict that agrees with the oracles on its domain yields exactly the defining value = the fresh-dict value,
    still agrees afterwards, and was only extended *)
 Theorem C15_cache_inv : forall (N : Num) n segerr tss m (c : @cache N) red,
@@ -16,11 +19,124 @@ Theorem C15_cache_inv : forall (N : Num) n segerr tss m (c : @cache N) red,
 Proof. exact @cache_inv. Qed.
 Print Assumptions C15_cache_inv.
 
-(* Tier S, induction over ANY query history: the values obtained on one shared dict are (Leibniz-)equal to the
-   values obtained with a fresh dict per query *)
+(* ---- cache_transparent.  Tier S, induction over ANY query history: the values obtained on one shared dict are
+   (Leibniz-)equal to the values obtained with a fresh dict per query, and the dict agrees with the oracles throughout *)
 Theorem C15_cache_transparent : forall (N : Num) n segerr tss m qs (c : @cache N),
   cache_ok n segerr tss c ->
   map fst (run_shared n segerr tss m c qs) = map (gcost_fresh n segerr tss m) qs /\
   Forall (fun r => cache_ok n segerr tss (snd r)) (run_shared n segerr tss m c qs).
 Proof. exact @cache_transparent. Qed.
 Print Assumptions C15_cache_transparent.
+
+(* the instance the correspondence run judges: binary64, starting from the empty dict — bit-for-bit *)
+Theorem C15_cache_transparent_float : forall n segerr tss m qs,
+  map fst (@run_shared FloatNum n segerr tss m empty_cache qs) = map (@gcost_fresh FloatNum n segerr tss m) qs.
+Proof. exact (fun n segerr tss m qs => proj1 (@cache_transparent FloatNum n segerr tss m qs empty_cache (cache_ok_empty n segerr tss))). Qed.
+Print Assumptions C15_cache_transparent_float.
+
+(* the dict only grows along a history *)
+Theorem C15_cache_grows : forall (N : Num) n segerr tss m qs (c : @cache N),
+  Forall (fun r => exists ext, fst (snd r) = fst c ++ ext) (run_shared n segerr tss m c qs).
+Proof. exact @cache_grows. Qed.
+Print Assumptions C15_cache_grows.
+
+(* ---- gcost_def.  Tier S: value = the metric's normalisation (R2 clipped at 0 by `finish`) of the NumPy sum of the
+   segment errors — two-point segments contribute the literal 0 — with divisor n + #segments - 1 *)
+Theorem C15_gcost_def : forall (N : Num) n segerr tss m red,
+  @gcost_fresh N n segerr tss m red =
+  finish m (np_sum (map (fun k => if seg_len n (fst k) (snd k) <=? 2 then zero else segerr (fst k) (snd k)) (segments red)))
+           (Z.of_nat n + Z.of_nat (length red - 1) - 1)%Z tss.
+Proof. exact @gcost_def. Qed.
+Print Assumptions C15_gcost_def.
+
+(* the closed model (oracles := the formulas of the end-point fit and the five partial costs) *)
+Theorem C15_gcost_closed_def : forall (N : Num) m (pts : list (@pt N)) red,
+  gcost_closed m pts red =
+  finish m (np_sum (map (fun k => if seg_len (length pts) (fst k) (snd k) <=? 2 then zero else segerr_formula m pts (fst k) (snd k))
+                        (segments red)))
+           (Z.of_nat (length pts) + Z.of_nat (length red - 1) - 1)%Z (tss_formula pts).
+Proof. exact (fun N m pts red => @gcost_def N (length pts) (segerr_formula m pts) (tss_formula pts) m red). Qed.
+Print Assumptions C15_gcost_closed_def.
+
+(* ---- gcost_nonneg.  The only law used is `0 < 0 = false`; whatever the dict holds *)
+Theorem C15_gcost_nonneg : forall (N : Num) n segerr tss m (c : @cache N) red,
+  ltb (@zero N) zero = false -> ltb (fst (gcost n segerr tss m c red)) zero = false.
+Proof. exact @gcost_nonneg. Qed.
+Print Assumptions C15_gcost_nonneg.
+Theorem C15_gcost_nonneg_float : forall n segerr tss m c red,
+  PrimFloat.ltb (fst (@gcost FloatNum n segerr tss m c red)) 0%float = false.
+Proof. exact (fun n segerr tss m c red => @gcost_nonneg FloatNum n segerr tss m c red eq_refl). Qed.
+Print Assumptions C15_gcost_nonneg_float.
+(* Tier A *)
+Theorem C15_gcost_nonneg_R : forall n (segerr : nat -> nat -> R) (tss : R) m (c : @cache RNum) red,
+  (0 <= fst (@gcost RNum n segerr tss m c red))%R.
+Proof. exact gcost_nonneg_R. Qed.
+Print Assumptions C15_gcost_nonneg_R.
+
+(* ---- gcost_all_breakpoints.  Tier A: every point a breakpoint => 0, and 1 for R2 *)
+Theorem C15_gcost_all_breakpoints : forall n (segerr : nat -> nat -> R) (tss : R) m,
+  @gcost_fresh RNum n segerr tss m (seq 0 n) = match m with MR2 => 1%R | _ => 0%R end.
+Proof. exact gcost_all_breakpoints_R. Qed.
+Print Assumptions C15_gcost_all_breakpoints.
+(* its structural half, Tier S: every segment error of the all-points list is the literal zero *)
+Theorem C15_all_breakpoints_segments : forall (N : Num) n segerr k,
+  seg_values (@seg_fresh N n segerr) (seq 0 k) = repeat zero (k - 1).
+Proof. exact @seg_values_all_points. Qed.
+Print Assumptions C15_all_breakpoints_segments.
+
+(* ---- global RMSE.  Tier S: cache transparency of compute_global_rmse over any history *)
+Theorem C15_grmse_transparent : forall (N : Num) n sqerr qs c,
+  agrees sqerr c ->
+  map fst (@rmse_shared N n sqerr c qs) = map (grmse_fresh n sqerr) qs.
+Proof. exact @grmse_transparent. Qed.
+Print Assumptions C15_grmse_transparent.
+
+(* Tier A: with the end-point-fit residuals as segment errors, the global RMSE of a well-formed breakpoint list on a
+   curve with strictly increasing x is the RMSE of the curve against its piecewise-linear interpolation, every point
+   counted once ... *)
+Theorem C15_grmse_is_rmse_of_interpolation : forall (pts : list rpt) red,
+  SI red -> hd 1 red = 0 -> last red 0 = length pts - 1 -> 1 <= length pts ->
+  xs_increasing pts ->
+  @grmse_closed RNum pts red = @rmse_interp RNum pts red.
+Proof. exact grmse_is_rmse_of_interpolation. Qed.
+Print Assumptions C15_grmse_is_rmse_of_interpolation.
+(* ... where the line of a segment is the interpolation between its two breakpoints *)
+Theorem C15_line_interpolates : forall (pts : list rpt) l r,
+  l <= r < length pts -> @px RNum pts l <> @px RNum pts r ->
+  @line_at RNum (@endpoint_fit RNum (@segment_of RNum pts l r)) (@px RNum pts l) = @py RNum pts l /\
+  @line_at RNum (@endpoint_fit RNum (@segment_of RNum pts l r)) (@px RNum pts r) = @py RNum pts r.
+Proof.
+  exact (fun pts l r H Hx => conj (eq_trans (f_equal (fun c => @line_at RNum c _) (endpoint_fit_R pts l r H Hx)) (line_left pts l r))
+                                  (eq_trans (f_equal (fun c => @line_at RNum c _) (endpoint_fit_R pts l r H Hx)) (line_right pts l r Hx))).
+Qed.
+Print Assumptions C15_line_interpolates.
+
+(* ---- mip_def.  Tier S: MIP (and its MAD) is the median over the interior breakpoints i of
+   RMSE(reduced without i) - RMSE(reduced), each RMSE being the fresh-dict value, although the code shares one dict *)
+Theorem C15_mip_def : forall (N : Num) n sqerr red,
+  @mip N n sqerr red =
+  mad_of (map (fun i => grmse_fresh n sqerr (delete_at i red) -! grmse_fresh n sqerr red)%num (seq 1 (length red - 2))).
+Proof. exact @mip_def. Qed.
+Print Assumptions C15_mip_def.
+
+(* ---- non-vacuity: concrete instances, evaluated on binary64 (values as returned by the package) *)
+Definition ex_pts : list (float * float) :=
+  [(0, 1); (1, 3); (2, 2); (3, 5); (4, 0x1.6p+2); (6, 9)]%float.
+Example C15_example_values :
+  f_same (@gcost_closed FloatNum MRpd ex_pts [0; 2; 5]) 0x1.b6db6db6db6dbp-4 = true /\
+  f_same (@gcost_closed FloatNum MR2 ex_pts [0; 2; 5]) 0x1.d162944030e85p-1 = true /\
+  f_same (@gcost_closed FloatNum MR2 ex_pts (seq 0 6)) 1 = true /\
+  f_same (@grmse_closed FloatNum ex_pts [0; 2; 5]) 0x1.9821756ceb856p-1 = true.
+Proof. vm_compute. auto. Qed.
+(* a history with hits and misses on one dict: 3 queries, 5 distinct segments cached, same values as fresh *)
+Example C15_example_history :
+  let f := @segerr_formula FloatNum MSmape ex_pts in
+  let t := @tss_formula FloatNum ex_pts in
+  let run := @run_shared FloatNum 6 f t MSmape empty_cache [[0; 2; 5]; [0; 2; 3; 5]; [0; 2; 5]] in
+  map (fun r => length (fst (snd r))) run = [2; 4; 4] /\
+  list_all2 f_same (map fst run) (map (@gcost_fresh FloatNum 6 f t MSmape) [[0; 2; 5]; [0; 2; 3; 5]; [0; 2; 5]]) = true.
+Proof. vm_compute. auto. Qed.
+Example C15_example_mip :
+  let m := @mip FloatNum 6 (@sqerr_formula FloatNum ex_pts) [0; 2; 3; 5] in
+  f_same (fst m) 0x1.a1d4c58d5b31cp-4 = true /\ f_same (snd m) 0x1.626e50dc2ec40p-8 = true.
+Proof. vm_compute. auto. Qed.
